@@ -251,25 +251,41 @@ func serializeErrClass(err error) string {
 
 func init() {
 	// rowser align rowtype cs shapes
+	// shapes "=" with row type NOTYPE: the real cs.ToRowSeries; "=" otherwise: cs.GetDataShapes()
+	// handed to SerializeColumnsToRows / NewRowSeries directly; else an explicit shape list.
 	ops["rowser"] = func(a []string) string {
 		align := atoi(a[0]) != 0
 		rt := mio.EnumRecordType(atoi(a[1]))
 		cs := parseCS(a[2])
-		var shapes []mio.DataShape
-		if a[3] == "=" {
-			shapes = cs.GetDataShapes()
-		} else {
-			shapes = parseShapes(a[3])
-		}
-		// the type-coercion path works on typed values and is outside the byte-level model
-		if _, co, err := mio.GetMissingAndTypeCoercionColumns(shapes, cs.GetDataShapes()); err == nil && len(co) > 0 {
-			return "skip:coercion"
-		}
-		data, recLen, err := mio.SerializeColumnsToRows(cs, shapes, align)
-		if err != nil {
-			return serializeErrClass(err)
-		}
 		key := mio.NewTimeBucketKey("X/1Min/V")
+		var shapes []mio.DataShape
+		var data []byte
+		var recLen int
+		var rs *mio.RowSeries
+		if a[3] == "=" && rt == mio.NOTYPE {
+			var err error
+			rs, err = cs.ToRowSeries(*key, align)
+			if err != nil {
+				return serializeErrClass(err)
+			}
+			shapes, data, recLen = rs.GetDataShapes(), rs.GetData(), rs.GetRowLen()
+		} else {
+			if a[3] == "=" {
+				shapes = cs.GetDataShapes()
+			} else {
+				shapes = parseShapes(a[3])
+			}
+			// the type-coercion path works on typed values and is outside the byte-level model
+			if _, co, err := mio.GetMissingAndTypeCoercionColumns(shapes, cs.GetDataShapes()); err == nil && len(co) > 0 {
+				return "skip:coercion"
+			}
+			var err error
+			data, recLen, err = mio.SerializeColumnsToRows(cs, shapes, align)
+			if err != nil {
+				return serializeErrClass(err)
+			}
+			rs = mio.NewRowSeries(*key, data, shapes, recLen, rt)
+		}
 		rows := mio.NewRows(append([]mio.DataShape(nil), shapes...), data)
 		if rt == mio.VARIABLE { // NewRowSeries' shape extension, for the exported Rows constructor
 			rows = mio.NewRows(append(append([]mio.DataShape(nil), shapes...), mio.DataShape{Name: "Nanoseconds", Type: mio.INT32}), data)
@@ -281,7 +297,7 @@ func init() {
 		} else {
 			rcs = showCS(c)
 		}
-		_, cs2 := mio.NewRowSeries(*key, data, shapes, recLen, rt).ToColumnSeries()
+		_, cs2 := rs.ToColumnSeries()
 		return fmt.Sprintf("reclen=%d data=%s rcs=%s cs=%s", recLen, hx(data), rcs, showCS(cs2))
 	}
 
@@ -338,12 +354,12 @@ func genC29(g *Gen) {
 		}
 		epochPos := 0
 		mode := g.Intn(20)
-		if mode == 0 && ncol > 1 { // F1: Epoch not first
+		if mode <= 1 && ncol > 1 { // Epoch not the first column (C29-F1, repaired)
 			epochPos = 1 + g.Intn(ncol-1)
 		}
 		var cols []string
 		used := map[string]bool{"Epoch": true}
-		hasI8, alias := false, false
+		hasI8, hasBool, alias := false, false, false
 		for c := 0; c < ncol; c++ {
 			if c == epochPos {
 				cols = append(cols, colTok("Epoch", 3, randElems(g, 3, nrow)))
@@ -353,17 +369,20 @@ func genC29(g *Gen) {
 			for used[name] {
 				name += "_"
 			}
-			if mode == 1 && !alias { // F3: a second column that folds to "epoch"
+			if mode == 2 && !alias { // a second column that folds to "epoch" (C29-F3, repaired)
 				name = []string{"epoch", "EPOCH", "ePoch"}[g.Intn(3)]
 				alias = true
 			}
 			used[name] = true
 			typ := fixedTypes[g.Intn(len(fixedTypes))]
-			if mode >= 4 && (typ == 5 || typ == 6) { // keep BYTE/BOOL (F2) to a minority of cases
+			if mode >= 5 && typ == 6 { // keep BOOL (read back as []byte: known) to a minority of cases
 				typ = 1
 			}
-			if typ == 5 || typ == 6 {
+			if typ == 5 {
 				hasI8 = true
+			}
+			if typ == 6 {
+				hasBool = true
 			}
 			cols = append(cols, colTok(name, typ, randElems(g, typ, nrow)))
 		}
@@ -375,12 +394,15 @@ func genC29(g *Gen) {
 			tags = append(tags, "epoch_not_first")
 		}
 		if hasI8 {
-			tags = append(tags, "int8_or_bool")
+			tags = append(tags, "int8_column")
+		}
+		if hasBool {
+			tags = append(tags, "bool_column")
 		}
 		if alias && ncol > 1 {
 			tags = append(tags, "epoch_alias")
 		}
-		if mode == 2 { // VARIABLE row type: Nanoseconds shape appended by NewRowSeries
+		if mode == 3 { // FIXED / VARIABLE row type (VARIABLE: Nanoseconds shape appended by NewRowSeries)
 			rt = g.Intn(2)
 			tags = append(tags, fmt.Sprintf("rowtype:%d", rt))
 		}
